@@ -400,7 +400,7 @@ def raising_policies():
 
 
 def run_ssh_client(host, port, entries, policy, host_key, entry="password", system_entries=None, user_via="file",
-                   raw_lines=None, raw_store="user"):
+                   raw_lines=None, raw_store="user", pre_connect=None):
     """entries: [(name-in-file, hashed?, PKey)] written to a known_hosts file; returns observation.
     entry = which authentication entry point of SSHClient.connect is used: legacy password= / pkey= arguments, or
     auth_strategy= with a password / private-key source"""
@@ -431,7 +431,8 @@ def run_ssh_client(host, port, entries, policy, host_key, entry="password", syst
                     f.write(raw_lines)
         try:
             return _connect_with_stores(c, paramiko, HostKeys, host, port, entries, policy, host_key, entry,
-                                        system_entries, user_via, raw_lines, raw_store, path, spath, cs, srv, called)
+                                        system_entries, user_via, raw_lines, raw_store, path, spath, cs, srv, called,
+                                        pre_connect)
         except paramiko.hostkeys.InvalidHostKey as e:
             return {"outcome": "known-hosts-load-error", "server_saw": [x[0] for x in srv.log],
                     "server_saw_credential": any(x[0] in ("password", "publickey") for x in srv.log),
@@ -448,7 +449,7 @@ def run_ssh_client(host, port, entries, policy, host_key, entry="password", syst
 
 
 def _connect_with_stores(c, paramiko, HostKeys, host, port, entries, policy, host_key, entry, system_entries,
-                         user_via, raw_lines, raw_store, path, spath, cs, srv, called):
+                         user_via, raw_lines, raw_store, path, spath, cs, srv, called, pre_connect=None):
     import os  # noqa: F401
 
     if True:
@@ -468,6 +469,10 @@ def _connect_with_stores(c, paramiko, HostKeys, host, port, entries, policy, hos
             # the same entries put into the user's store through the API: get_host_keys().add(...)
             for name, hashed, key in entries:
                 c.get_host_keys().add(HostKeys.hash_host(name) if hashed else name, key.get_name(), key)
+
+        if pre_connect is not None:
+            # the application edits its host-key store through the API before connecting
+            pre_connect(c)
 
         class Custom(paramiko.MissingHostKeyPolicy):
             def __init__(self, ok):
